@@ -244,6 +244,20 @@ fn check_write_here(addr: u16, typ: u8, data: &[u8], wscript: &[WAns]) -> (&'sta
     (outcome, out)
 }
 
+/// History: a read that fails with a hard error after `keep` bytes of a line, then (same thread, NEW clean stream) the
+/// ordinary reads. Leftovers of the failed read must not leak into the next one.
+pub fn check_read_after_failure(partial: &[u8], kind: io::ErrorKind, tape: &[u8], reads: usize) -> Vec<V> {
+    let (p, t) = (partial.to_vec(), tape.to_vec());
+    crate::util::in_fresh_thread(move || {
+        let log = new_log();
+        let mut first = ScriptIo::new(p.clone(), log);
+        first.at_end = RAns::Fail(kind);
+        let _ = catch(|| Frame::read(&mut first).is_ok());
+        let (_, vs) = check_read_here(&t, &[], reads);
+        vs.into_iter().map(|(c, k, d)| (c, format!("after-failed-read:{}", k), format!("after a read that failed ({:?}) on the partial line {}: {}", kind, show_bytes(&p), d))).collect()
+    })
+}
+
 fn streams(seed: u64) -> Vec<(String, Vec<u8>, usize)> {
     // (name, tape, number of lines incl. a trailing partial one)
     let f0 = ref_encode(0x0003, 2, &[0xFF], true);
@@ -394,6 +408,30 @@ fn run_pass(ctx: &Ctx) -> Report {
     for a in accs {
         all.merge(ID, a);
     }
+    // history: every prefix of two lines left behind by a failed read, then clean streams
+    let partial_src = [ref_encode(0x0003, 2, &[0xFF], true), ref_encode(0x0010, 0, &[1, 2, 3], true)];
+    let mut hj: Vec<(Vec<u8>, io::ErrorKind, usize)> = vec![];
+    for src in &partial_src {
+        for keep in 0..src.len() {
+            for k in [io::ErrorKind::TimedOut, io::ErrorKind::Other] {
+                for si in [0usize, 3, 5] {
+                    hj.push((src[..keep].to_vec(), k, si));
+                }
+            }
+        }
+    }
+    let accs = par_range(hj.len() as u64, 8, Acc::default, |acc, i| {
+        let (ref partial, kind, si) = hj[i as usize];
+        acc.evals += 1;
+        acc.outcomes.add("read:after-failed-read");
+        acc.nontrivial_fp.push((1u64 << 41) | i);
+        for (clause, class, detail) in check_read_after_failure(partial, kind, &ss[si].1, ss[si].2 + 1) {
+            acc.violation(ID, Violation::new(clause, class, detail, json!({"kind": "read-after-failure", "partial": hex(partial), "error": kind_name(kind), "tape": hex(&ss[si].1), "reads": ss[si].2 + 1}), (1u64 << 50) | i));
+        }
+    });
+    for a in accs {
+        all.merge(ID, a);
+    }
     let read_runs = all.evals;
 
     // ---- write ----
@@ -500,6 +538,10 @@ fn run_pass(ctx: &Ctx) -> Report {
 pub fn replay(_ctx: &Ctx, case: &Value) -> Result<Vec<Violation>, String> {
     crate::util::ISOLATE_CASES.store(true, std::sync::atomic::Ordering::Relaxed);
     match case["kind"].as_str() {
+        Some("read-after-failure") => {
+            let vs = check_read_after_failure(&unhex(case["partial"].as_str().ok_or("partial")?), kind_from(case["error"].as_str().unwrap_or("Other")), &unhex(case["tape"].as_str().ok_or("tape")?), case["reads"].as_u64().unwrap_or(3) as usize);
+            Ok(vs.into_iter().map(|(c, k, d)| Violation::new(c, k, d, case.clone(), 0)).collect())
+        }
         Some("read") => {
             let tape = unhex(case["tape"].as_str().ok_or("tape")?);
             let script: Vec<RAns> = case["answers"].as_array().ok_or("answers")?.iter().map(|x| rans_from(x.as_str().unwrap_or("D0"))).collect();
